@@ -429,6 +429,17 @@ func (x *Exec) static(st *State, fn *ssa.Function, c *ssa.CallCommon, args []SVa
 		}
 		ret(SVal{K: KStruct, Elems: elems, GoT: rt})
 		return
+	case pkg == "time" && recvTypeName(fn) == "Duration" && len(args) == 1 && args[0].K == KInt && (name == "Nanoseconds" || name == "Microseconds" || name == "Milliseconds"):
+		// assumed contract of package time: a Duration is its count of nanoseconds (T4)
+		t := args[0].T
+		switch name {
+		case "Microseconds":
+			t = "(div " + t + " 1000)"
+		case "Milliseconds":
+			t = "(div " + t + " 1000000)"
+		}
+		ret(SVal{K: KInt, T: t, GoT: fn.Signature.Results().At(0).Type()})
+		return
 	case pkg == "context" && (name == "Background" || name == "TODO"):
 		bg := q(x.D.constOf("ctx!"+name, "U"))
 		st.assume(not(eq(bg, "nil"))) // assumed contract of package context: Background and TODO are never nil
